@@ -2,7 +2,9 @@ package props
 
 import (
 	"fmt"
+	"reflect"
 	"sort"
+	"strings"
 
 	sdk "github.com/cosmos/cosmos-sdk/types"
 
@@ -42,6 +44,7 @@ type rnsGen struct {
 	w     *RW
 	c     *chain.Chain
 	pool  []string // canonical names the generator plays with
+	alias map[string]string
 	short map[string]int64
 	queue []func() bool // pending targeted steps; return false when the history must stop
 }
@@ -87,9 +90,38 @@ func (g *rnsGen) spell(n string) string {
 	return n
 }
 
+// aliasFor: per case, some names are always written with another separator than "." in front of the TLD. The
+// handlers drop that character unseen, so "test-jkl" is test.jkl. One spelling per name per case (applied to every
+// message in do), so that bids and listings - which the chain keys by the spelling used - stay addressable.
+func (g *rnsGen) aliasFor(canon string) string {
+	if g.alias == nil {
+		g.alias = map[string]string{}
+	}
+	a, ok := g.alias[canon]
+	if !ok {
+		a = canon
+		if i := strings.LastIndex(canon, "."); i > 0 && !strings.Contains(canon[:i], ".") && g.rc.Chance(0.15) {
+			a = canon[:i] + g.rc.PickS([]string{"-", "_", "x"}) + canon[i+1:]
+		}
+		g.alias[canon] = a
+	}
+	return a
+}
+
 func (g *rnsGen) do(i int, m sdk.Msg) bool {
 	if i < 0 {
 		return true // no such account (e.g. the name is owned by nobody we control): skip the step
+	}
+	if _, isDel := m.(*rnstypes.MsgDelRecord); !isDel {
+		if f := reflect.ValueOf(m).Elem().FieldByName("Name"); f.IsValid() && f.Kind() == reflect.String {
+			canon := rnsCanon(strings.ReplaceAll(f.String(), " ", ""))
+			if a := g.aliasFor(canon); a != canon && !strings.Contains(f.String(), " ") {
+				if g.rc.Chance(0.15) {
+					a = rnsMixCase(g.rc, a)
+				}
+				f.SetString(a)
+			}
+		}
 	}
 	_, ok := g.w.Do(i, m)
 	return ok
@@ -616,7 +648,9 @@ func runRnsHistory(rc *RunCtx) {
 	// 1..3 targeted sequences, interleaved with PRNG steps
 	nseq := 1 + rc.Intn(3)
 	for i := 0; i < nseq; i++ {
-		switch rc.Intn(8) {
+		switch rc.Intn(9) {
+		case 8:
+			g.seqInitCollision()
 		case 0, 1:
 			g.seqListThenMoveThenBuy("transfer")
 		case 2:
@@ -669,4 +703,26 @@ func runRnsHistory(rc *RunCtx) {
 		return
 	}
 	rc.Sample(map[string]interface{}{"names": pool, "final_height": c.Height, "first_steps": w.line})
+}
+
+// seqInitCollision: somebody pays for the very name that the free-name generator (MsgInit) will hand out at
+// an upcoming height; an account that has not used Init yet then sends MsgInit exactly at that height. The paid,
+// live name must stay with its owner.
+func (g *rnsGen) seqInitCollision() {
+	h := g.c.Height + int64(2+g.rc.Intn(7))
+	n := rnstypes.MakeName(int(h), h) + ".jkl"
+	g.pool = append(g.pool, n)
+	g.enqueue(func() bool {
+		i := g.rc.Intn(len(g.c.Accs))
+		return g.do(i, &rnstypes.MsgRegisterName{Creator: g.acc(i), Name: n, Years: 1, Data: `{"paid":true}`})
+	}, func() bool {
+		if g.c.Height > h {
+			return true
+		}
+		if !g.advanceTo(h) {
+			return false
+		}
+		i := g.otherThan(g.ownerIdx(n))
+		return g.do(i, &rnstypes.MsgInit{Creator: g.acc(i)})
+	})
 }
